@@ -24,10 +24,19 @@ impl Peekable<Lexer> {
     { unimplemented!() }
 }
 
-/// get_any hands out exactly the next item of the stream (or UnexpectedEOF at its end) and consumes it
+/// get_any hands out exactly the next item of the stream (an error at its end) and consumes it
+/// at the end of the stream: plain UnexpectedEOF between statements, an error located on the statement read so far
+/// when one has been started (so that a truncated final statement is reported, C07)
+pub closed spec fn eof_error(old_rt: RawToken, r: Result<Token, LexError>) -> bool {
+    match r {
+        Err(LexError::UnexpectedEOF) => is_default_raw(old_rt),
+        Err(LexError::UnexpectedError(t)) => !is_default_raw(old_rt) && t.raw_token.pos == old_rt.pos && t.raw_token.file == old_rt.file,
+        _ => false,
+    }
+}
 pub open spec fn took_next(before: Seq<Result<Token, LexError>>, after: Seq<Result<Token, LexError>>, r: Result<Token, LexError>) -> bool {
     if before.len() == 0 {
-        r is Err && r->Err_0 is UnexpectedEOF && after == before
+        r is Err && after == before
     } else {
         r == before[0] && after == before.skip(1)
     }
